@@ -41,6 +41,7 @@ type Instance struct {
 	Relaxed  bool // floats as reals with rounding-error terms
 	RelaxedUF bool
 	Opaque    bool // structure-only float mode (implies the real-sorted encoding)
+	NoSubnormal bool
 	Concrete map[string]string // if set: run as a concrete interpreter with these inputs (translator validation)
 }
 
@@ -198,13 +199,14 @@ func (P *Program) runInstance(inst *Instance, sol *Solver) *InstanceResult {
 			prog: P.prog, sol: sol, prefix: prefix, globals: map[*ssa.Global]*Object{}, allow: map[*Object]bool{},
 			unwind: inst.Unwind, cases: inst.Case, harness: inst.Harness, budget: inst.Budget, stats: &res.Stats,
 			tokLitEq: map[string]Bool{}, tokOvfAx: map[int]bool{}, ufs: map[string]bool{}, stubs: stubs, timeoutMs: inst.Timeout, repoPrefix: repoMod,
-			known: map[string]bool{}, concrete: inst.Concrete, relaxed: (inst.Relaxed || inst.Opaque) && inst.Concrete == nil, relaxedUF: inst.RelaxedUF, opaque: inst.Opaque, deadline: t0.Add(time.Duration(inst.MaxSeconds * float64(time.Second))),
+			known: map[string]bool{}, concrete: inst.Concrete, relaxed: (inst.Relaxed || inst.Opaque) && inst.Concrete == nil, relaxedUF: inst.RelaxedUF, opaque: inst.Opaque, noSubnormal: inst.NoSubnormal, deadline: t0.Add(time.Duration(inst.MaxSeconds * float64(time.Second))),
 		}
 		for _, k := range inst.Known {
 			e.known[k] = true
 		}
 		sol.log = sol.log[:0]
 		sol.tacticOff = inst.Relaxed || inst.Opaque // the bit-vector tactic does not apply to real arithmetic
+		sol.stateless = false // (fresh-process solving per query was tried for real-arithmetic contexts: no gain on the registered checks)
 		sol.Send("(push 1)")
 		status := P.runPath(e, fn)
 		sol.Send("(pop 1)")
